@@ -27,6 +27,11 @@ LongDiv(rem, q, S) == IF S = 1 THEN 0
 FxDivPos(p, q, S) == (p \div q) * S + (LongDiv(p % q, q, S * 10) + 5) \div 10
 FxDiv(p, q, S) == IF p >= 0 THEN FxDivPos(p, q, S) ELSE -FxDivPos(-p, q, S)
 
+\* product of two non-negative fixed-point numbers (scale 10^6) without leaving 32 bits:
+\* a = a1 10^3 + a0, b = b1 10^3 + b0  =>  a b / 10^6 = a1 b1 + (a1 b0 + a0 b1) / 10^3 + a0 b0 / 10^6
+FxMul(a, b) == LET a1 == a \div 1000  a0 == a % 1000  b1 == b \div 1000  b0 == b % 1000
+               IN a1 * b1 + (a1 * b0 + a0 * b1) \div 1000 + (a0 * b0) \div 1000000
+
 RECURSIVE SumSeq(_)
 SumSeq(s) == IF s = <<>> THEN 0 ELSE Head(s) + SumSeq(Tail(s))
 
